@@ -72,6 +72,16 @@ class Timers(SM.Monitor):
                     self.keep.append(sa)
                     self.created[id(sa)] = now
                     self.last_auth[id(sa)] = now
+                    # the schedule the IKE_SA starts with (nothing has touched it yet): rekey after lifetime + at most 5 s of
+                    # jitter, deletion 30 s after that - whatever the lifetime is
+                    life = sa.configuration.lifetime
+                    if not (now + life - 1e-6 <= sa.rekey_ike_sa_at <= now + life + 5 + 1e-6):
+                        sim.fail('ike-rekey-scheduled-off', f'a new IKE_SA scheduled its rekey {sa.rekey_ike_sa_at - now:.2f}s ahead; '
+                                                            f'the configured lifetime is {life}s (+ up to 5 s of jitter)')
+                    if abs((sa.delete_ike_sa_at - sa.rekey_ike_sa_at) - 30) > 1e-6:
+                        sim.fail('ike-delete-not-30s-after-rekey-deadline',
+                                 f'a new IKE_SA (lifetime {life}s) scheduled its deletion '
+                                 f'{sa.delete_ike_sa_at - sa.rekey_ike_sa_at:.1f}s after its rekey deadline; the statement says 30 s')
                 n = getattr(sa, 'new_ike_sa', None)
                 if n is not None and id(n) not in self.created:
                     self.keep.append(n)
